@@ -12,7 +12,8 @@ from .c04 import json_nontrivial
 LEVEL = "exploration"
 QUICK_SHARDS = 4
 RULE = (
-    "Hypothesis value trees (microsecond-resolution times) over the kitchen-sink corpus. Clauses: "
+    "Hypothesis value trees (microsecond-resolution times; aware datetimes with a drawn UTC offset; generated-code "
+    "variant default or typing.310) over the kitchen-sink corpus. Clauses: "
     "json_format.Parse(bp.to_json(), Ref()) succeeds and equals the reference message built from the tree; "
     "Bp().from_json(json_format.MessageToJson(ref)) has the tree's snapshot (also with "
     "preserving_proto_field_name=True, i.e. original proto names as keys). Non-trivial as C04; labelled by the "
@@ -25,12 +26,19 @@ def targets(ctx):
     from google.protobuf import json_format
 
     c = corpus()
+    c310 = corpus(opts=("typing.310",))
     schema = c.schema
-    adapter = BPAdapter(schema)
+    adapters = {}
+
+    def adapter_for(tz):
+        if tz not in adapters:
+            adapters[tz] = BPAdapter(schema, tz_offset_min=tz)
+        return adapters[tz]
 
     @collecting
-    def clauses(out, name, tree, proto_names):
-        cls = c.bp(name)
+    def clauses(out, name, tree, proto_names, variant="default", tz=0):
+        cls = (c310 if variant == "typing.310" else c).bp(name)
+        adapter = adapter_for(tz)
         mi = schema.msg(f"ks.{name}")
         want = norm(schema, mi, tree)
         # betterproto -> reference
@@ -54,21 +62,22 @@ def targets(ctx):
         if got != want:
             out.append(("ref_json_to_bp", f"betterproto reads reference JSON as {got!r:.300}, want {want!r:.300}; json={rtext:.300}"))
 
-    def fails_clause(proto_names, clause):
+    def fails_clause(proto_names, clause, variant="default", tz=0):
         def f(mi, tree):
             name = mi.full_name.split(".")[-1]
-            return any(cl == clause for cl, _ in clauses(name, tree, proto_names))
+            return any(cl == clause for cl, _ in clauses(name, tree, proto_names, variant, tz))
 
         return f
 
     def ev(case):
         name, tree, pn = case["msg"], case["tree"], case.get("proto_names", False)
         mi = schema.msg(f"ks.{name}")
-        found = clauses(name, tree, pn)
+        variant, tz = case.get("variant", "default"), case.get("tz", 0)
+        found = clauses(name, tree, pn, variant, tz)
         fails = []
         for clause, detail in found:
             fails += cm.failures_for(schema, mi, tree, clause, f"msg={name} proto_names={pn} tree={tree!r} :: {detail}",
-                                     fails_clause(pn, clause))
+                                     fails_clause(pn, clause, variant, tz))
         rules = []
         for fi in mi.fields:
             if fi.name in tree:
@@ -88,6 +97,8 @@ def targets(ctx):
     def strat(draw):
         case = dict(draw(base))
         case["proto_names"] = draw(st.booleans())
+        case["variant"] = draw(st.sampled_from(["default", "default", "typing.310"]))
+        case["tz"] = draw(st.sampled_from([0, 0, 330, -480, 60, 840]))
         return case
 
     def strip_enums(schema_, mi_, tree_):
